@@ -35,7 +35,7 @@ m = dict(
     engines=[dict(name="sipsp-pbt", path="/verif/harness", serves_properties=[c["property_id"] for c in checks],
                   kind_free_text="Go test binary (rapid v1.3.0 generators + exhaustive small-scope enumerators + native fuzz targets) driven by the python driver /verif/check")],
     checks=checks,
-    notes="All checks are property-based tests / enumerations / fuzzing with explicit oracles; see DESIGN.md. Defects found and repaired are listed in known_findings.json ('fixed'); their shrunk cases live in replays/<ID>/ and are re-run first by every check.",
+    notes="All checks are property-based tests / enumerations / fuzzing with explicit oracles; see DESIGN.md. Defects found and repaired are listed in known_findings.json ('fixed'); their shrunk cases live in replays/<ID>/ and are re-run first by every check. Every generator occasionally stretches one element (token, whitespace run, zero padding) or one count (items, headers, contacts, capacities) to a size from a fixed needle list (15..1000 bytes, 9..300 items), see DESIGN.md 7b.",
     not_applicable=na,
 )
 json.dump(m, open(os.path.join(ROOT, "MANIFEST.json"), "w"), indent=1)
